@@ -12,6 +12,9 @@ def splitCharAux (sep : Char) : Str → Str → List Str
 /-- inner separator of a field: U+001F -/
 def us : Char := Char.ofNat 31
 
+/-- separator inside a token: U+001E -/
+def rs : Char := Char.ofNat 30
+
 def parts (f : Str) : List Str := splitCharAux us f []
 
 def absPath (s : Str) : Path := norm (splitSlash s)
@@ -21,6 +24,7 @@ def showPath (p : Path) : Str := if p = [] then ['/'] else p.flatMap (fun s => '
 def pkName : PK → Str
   | .rmtree => "rmtree".toList | .rm => "rm".toList | .mk => "mk".toList | .wr => "wr".toList
   | .chmod => "chmod".toList | .utime => "utime".toList | .mvFrom => "mvfrom".toList | .mvTo => "mvto".toList
+  | .symlink => "symlink".toList
 
 def showPrim (p : Prim) : Str := pkName p.kind ++ ' ' :: showPath p.path
 
@@ -30,8 +34,13 @@ def parseTree (es : List Str) : Tree :=
     | '0' :: r => { t with walk := t.walk ++ [(0, r)] }
     | '1' :: r => { t with walk := t.walk ++ [(1, r)] }
     | '2' :: r => { t with walk := t.walk ++ [(2, r)] }
+    | '3' :: r => { t with walk := t.walk ++ [(3, r)] }
+    | 'L' :: r =>
+      match splitCharAux rs r [] with
+      | [rel, target] => { t with links := t.links ++ [(rel, absPath target)] }
+      | _ => t
     | 'T' :: r => { t with touch := t.touch ++ [r] }
-    | _ => t) ⟨[], []⟩
+    | _ => t) ⟨[], [], []⟩
 
 def onLastPage (s : Site) (f : Page → Page) : Site :=
   match s.pages.getLast? with
@@ -107,6 +116,16 @@ def dispatchC19 : List Str → Option (List Str)
       let g := match graphDir c with | some g => showPath g | none => ['-']
       some ((if refuses c then "refused".toList else "ok".toList) :: showPath (outDir c) :: g ::
             b01 (noEscape s) :: (run c s).map showPrim)
+    else if cmd == "c19.guard".toList then
+      -- output dir, page location, copy_subdir items: target of each item and the guard's verdict
+      match args with
+      | o :: loc :: items =>
+        let op := absPath o
+        let to := op ++ ["page".toList] ++ splitSlash loc
+        some ("ok".toList :: items.map (fun it =>
+          let dst := norm (joinRaw to it)
+          b01 (guardAccepts op dst) ++ ' ' :: showPath dst))
+      | _ => some ["bad-request".toList]
     else if cmd == "c19.norm".toList then
       match args with
       | [s] => some ["ok".toList, showPath (norm (splitSlash s))]
